@@ -27,13 +27,7 @@ BAD_CPP = re.compile(r"\b(static|thread_local|rand|srand|time|getenv|clock|rando
 def run(ck, ctx):
     ck.explanation = EXPLANATION
     from .entries import _obj
-    E = EasCtx(ctx, cloudf="input")
-    I = E.I
-    g = I.g
     # use the real cloud object so that the cloud closures are part of the analysed closure
-    from .common import attr
-    st = E.st
-    # --- second context with the configured cloud object
     I2 = ctx.interp()
     I2.watch_calls |= {"CphotAng.run", "CphotAng.__call__"}
     cfg2 = I2.cfg_root()
@@ -48,8 +42,8 @@ def run(ck, ctx):
         raise AnalysisError("CphotAng.__call__ has no normal exit")
     g2 = I2.g
     runs = [c for c in I2.call_log if c[0].qualname == "CphotAng.run"]
-    if len(runs) != 1:
-        raise AnalysisError(f"kernel reached {len(runs)} times from the batch call")
+    if not runs:
+        raise AnalysisError("kernel not reached from the batch call")
     funcs = {}
     seen_run = False
     for fi, site in I2.inlined[n_inl:]:
@@ -142,46 +136,71 @@ def run(ck, ctx):
     # ---------------------------------------------------------------- R10.3 pipeline
     def r103():
         fnn = "CphotAng.__call__"
+        order = ["betaE", "alt", "Eshow100PeV", "init_lat", "init_long"]
         eff = {k: [e for e in r.effects if e.kind == k] for k in
-               ("dask-from-sequence", "dask-map", "dask-compute", "dask-combinator")}
-        ck.ob("R10.3", "exactly one from_sequence -> map -> compute pipeline", all(len(eff[k]) == 1 for k in
-              ("dask-from-sequence", "dask-map", "dask-compute")), r.value, fnn,
-              ", ".join(f"{k}: {len(v)}" for k, v in eff.items()))
+               ("dask-from-sequence", "dask-map", "dask-compute", "dask-combinator", "seq-map")}
+        ck.ob("R10.3", "the batch call runs a from_sequence -> map -> compute pipeline, each stage once per pipeline",
+              len(eff["dask-from-sequence"]) >= 1 and len(eff["dask-from-sequence"]) == len(eff["dask-map"])
+              == len(eff["dask-compute"]), r.value, fnn, ", ".join(f"{k}: {len(v)}" for k, v in eff.items()))
         for e in eff["dask-combinator"]:
             ck.ob("R10.3", f"no bag combinator besides map/compute [.{e.data.get('name')}]", False, e.node, fnn,
                   "combinators such as fold / distinct / repartition / random_sample do not preserve the "
                   "one-result-per-event order", construct=f"{fnn}: bag combinator {e.data.get('name')}")
-        if len(eff["dask-from-sequence"]) == 1:
-            seq = eff["dask-from-sequence"][0].node
-            kws = eff["dask-from-sequence"][0].data.get("kwargs", [])
-            ck.ob("R10.3", "from_sequence is given zip(per-event argument arrays)", seq.op == "Zip", seq, fnn,
-                  g2.show(seq, 2))
+        for e in eff["dask-from-sequence"]:
+            kws = e.data.get("kwargs", [])
             ck.ob("R10.3", "from_sequence only sets the partitioning", set(kws) <= {"partition_size", "npartitions"},
-                  seq, fnn, f"keywords {kws}")
+                  e.node, fnn, f"keywords {kws}")
+        for e in eff["dask-from-sequence"] + eff["seq-map"]:
+            seq = e.node
+            what = "from_sequence" if e.kind.startswith("dask") else "the sequential map"
+            ck.ob("R10.3", f"{what} is given zip(per-event argument arrays)", seq.op == "Zip", seq, fnn,
+                  g2.show(seq, 2))
             if seq.op == "Zip":
-                order = ["betaE", "alt", "Eshow100PeV", "init_lat", "init_long"]
                 ok = len(seq.args) == 5 and all(a is ins[k] for a, k in zip(seq.args, order))
                 ck.ob("R10.3", "the zipped sequences are the batch call's per-event arguments, unmodified and in order",
                       ok, seq, fnn, ", ".join(g2.show(a, 1) for a in seq.args))
-        loc = runs[0][2]
-        kparams = [a.arg for a in runs[0][0].node.args.args][1:]
-        for k, (kp, bp) in enumerate(zip(kparams[:5], ["betaE", "alt", "Eshow100PeV", "init_lat", "init_long"])):
-            v = loc.get(kp)
-            ok = v is not None and v.op == "IterElem" and v.args[0] is ins[bp]
-            ck.ob("R10.3", f"kernel parameter {kp} receives the element of batch argument {bp}", ok,
-                  v if v is not None else r.value, fnn, g2.show(v, 2) if v is not None else "missing")
-        cf = loc.get(kparams[5]) if len(kparams) > 5 else None
-        ck.ob("R10.3", "the cloud callable is passed through to the kernel", cf is cloud, cf if cf is not None else r.value,
-              fnn, g2.show(cf, 1) if cf is not None else "missing")
-        # unpacking order
-        kret = runs[0][3]
+        # every kernel invocation reachable from the batch call
+        for ri, run_ in enumerate(runs):
+            loc = run_[2]
+            tag = "" if len(runs) == 1 else f" [invocation {ri + 1} of {len(runs)}, {_site(run_[1])}]"
+            kparams = [a.arg for a in run_[0].node.args.args][1:]
+            for k, (kp, bp) in enumerate(zip(kparams[:5], order)):
+                v = loc.get(kp)
+                ok = v is not None and v.op == "IterElem" and v.args[0] is ins[bp]
+                ck.ob("R10.3", f"kernel parameter {kp} receives the element of batch argument {bp}{tag}", ok,
+                      v if v is not None else r.value, fnn, g2.show(v, 2) if v is not None else "missing")
+            cf = loc.get(kparams[5]) if len(kparams) > 5 else None
+            ck.ob("R10.3", f"the cloud callable is passed through to the kernel{tag}", cf is cloud,
+                  cf if cf is cloud else run_[1], fnn, g2.show(cf, 1) if cf is not None else "missing",
+                  construct=f"{fnn}: cloud callable not forwarded to the kernel")
+        # the result on every path
+        krets = [run_[3] for run_ in runs]
         for k in (0, 1):
             out = r.ret(k)
-            lists = [n for n in walk([out]) if n.op == "ListOf"]
-            ok = len(lists) == 1 and g2.same(lists[0].args[0], I2.snapshot(I2.elem(kret, k), r.st))
-            ck.ob("R10.3", f"batch result {k} collects the kernel's return value {k} in input order", ok, out, fnn,
-                  g2.show(out, 3))
-        comp = eff["dask-compute"][0] if eff["dask-compute"] else None
+            leaves = _leaves(g2, out)
+            bad = []
+            n_coll = 0
+            for pc, leaf in leaves:
+                lf = _strip_array(leaf)
+                if lf.op == "ListOf" and any(g2.same(lf.args[0], I2.snapshot(I2.elem(kr, k), r.st)) for kr in krets):
+                    n_coll += 1
+                    continue
+                if _input_free(lf, ins, cloud) and any(_emptiness_test(c, ins) for c, pol in pc):
+                    continue
+                bad.append((pc, leaf))
+            for pc, leaf in bad:
+                ck.ob("R10.3", f"batch result {k} is on every path the in-order collection of the kernel's return "
+                      f"value {k} (or the guarded empty result)", False, leaf, fnn,
+                      f"path [{'; '.join(('' if pol else 'not ') + g2.show(c, 2) for c, pol in pc) or 'always'}] "
+                      f"returns {g2.show(leaf, 3)}",
+                      construct=f"{fnn}: result {k} on a path that bypasses the per-event collection")
+            ck.ob("R10.3", f"batch result {k} collects the kernel's return value {k} in input order", not bad and
+                  n_coll >= 1, out, fnn, f"{len(leaves)} path(s), {n_coll} collecting, " + g2.show(out, 3))
+        unk = [e for e in r.effects if "CphotAng.run" not in e.funcs() and e.kind in
+               ("call-unknown", "extcall-unknown", "mcall-unknown", "unsupported", "recursion-cut")]
+        for e in unk:
+            ck.ob("R10.3", f"call outside the modelled set in the batch call at {e.where()}", None, e.node, fnn,
+                  f"{e.kind}: {e.data}")
     ck.guard(r103, "R10.3")
 
     # ---------------------------------------------------------------- R10.4 error discipline
@@ -204,3 +223,38 @@ def _kstart(I, runs):
     """first node id created by the kernel invocation = smallest id among its parameter cells"""
     return min(v.id for v in runs[0][2].values() if v.op == "IterElem") if any(
         v.op == "IterElem" for v in runs[0][2].values()) else 0
+
+
+def _site(site):
+    try:
+        return f"line {site[1]}"
+    except Exception:
+        return "?"
+
+
+def _strip_array(n):
+    """peel numpy.array / asarray wrappers"""
+    while n.op == "Call" and n.args and n.args[0].op == "Ext" and n.args[0].attr in (
+            "numpy.array", "numpy.asarray", "numpy.asanyarray") and len(n.args) >= 2:
+        n = n.args[1]
+    return n
+
+
+def _leaves(g, n, pc=(), depth=0):
+    """(path condition, value) for every arm of the Phi tree of a returned value"""
+    if n.op == "Phi" and depth < 12:
+        c = n.args[0]
+        return _leaves(g, n.args[1], pc + ((c, True),), depth + 1) + _leaves(g, n.args[2], pc + ((c, False),),
+                                                                            depth + 1)
+    return [(pc, n)]
+
+
+def _input_free(n, ins, cloud):
+    inputs = set(id(v) for v in ins.values()) | {id(cloud)}
+    return not any(id(x) in inputs or x.op in ("IterElem", "ListOf", "Unknown", "MCall") for x in walk([n]))
+
+
+def _emptiness_test(c, ins):
+    """the condition mentions len(<batch argument>) - the guard of the empty-batch exit"""
+    inputs = set(id(v) for v in ins.values())
+    return any(x.op == "Len" and id(x.args[0]) in inputs for x in walk([c]))
